@@ -230,6 +230,22 @@ def run(spec, rec):
             if ok:
                 rec.hit("arm-direct-%dD" % nd)
                 rec.close("direct-trapezoid", relerr(np.asarray(fd.data), ref), TOL, site=site, tags=tags)
+            if nd == 1 and ns[0] >= 4 and ok:
+                # sampling n and projecting down to m equals sampling m directly -- also after a one-population data spectrum has
+                # been built between the same sizes (it reads the same memoised hypergeometric weights and must leave them intact)
+                n1 = ns[0]
+                m1 = int(rng.integers(2, n1))
+                dd = {"s_%d" % j: {"segregating": ("A", "C"), "outgroup_allele": "A", "context": "-A-", "outgroup_context": "-A-",
+                                   "calls": {"P": (n1 - a, a)}} for j, a in enumerate([int(v) for v in rng.integers(0, n1 + 1, size=40)])}
+                direct_m = Spectrum.from_phi(phi, [m1], grids, mask_corners=False, force_direct=True)
+                for when in ("before", "after"):
+                    if when == "after":
+                        rec.noraise("from_phi-returns", lambda: Spectrum.from_data_dict(dd, ["P"], [m1]), site="Spectrum.from_data_dict", tags=tags)
+                    okp, pj = rec.noraise("from_phi-returns", lambda: Spectrum(np.asarray(fd.data), mask_corners=False).project([m1]), site="Spectrum.project", tags=tags)
+                    if okp:
+                        sc = float(np.max(np.abs(direct_m.data)))
+                        rec.close("sample-then-project", relerr(np.asarray(pj.data), np.asarray(direct_m.data), scale=sc), 1e-9, site=site,
+                                  tags=dict(tags, data_spectrum_built=when == "after"))
             for k, nm in enumerate(["xx", "yy", "zz"][:nd]):
                 mats = [B * wk[None, :] for B, wk in zip(Bs, ws)]
                 mats[k] = Bs[k] * (ws[k] * grids[k] * (1 - grids[k]))[None, :]
